@@ -265,3 +265,9 @@ def replay_cdilog(model, wd):
             worst = (err, px, py, got, want)
     err, px, py, got, want = worst
     return err > 1e-13, 'real dilog(%r%+rj) = %r, Li2 = %r, relative error %.3g (tolerance 1e-13)' % (px, py, got, want, err)
+
+
+def fidelity(tier, seed):
+    """A-FRONT guard: the scalar functions of the files under contract, interpreter (float mode) vs compiled real code, bit for bit"""
+    from gm2v import fidelity as _fid
+    return _fid.scalar_guard(['src/gm2_ffunctions.cpp', 'src/gm2_dilog.cpp'], ['src/gm2_numerics.cpp'], n_calls=25 if tier == 'quick' else 200, seed=seed)
